@@ -10,9 +10,12 @@ From Coq Require Import List Bool Arith Lia.
 From SQ Require Import Base.ListUtil Stab.Pauli Stab.Kernels Stab.Tableau.
 Import ListNotations.
 
-Record vq := mkVq { v_hid : nat; v_num : nat; v_simNode : nat; v_simNum : nat }.
+(* v_qid, r_ids are GHOST: the identity of the physical qubit (= handle id of the virtualQubit created with it) carried by a held
+   qubit, and the identities sitting at positions 0..k-1 of a register.  They are never read by `step`'s control flow and are
+   erased by the dump; they exist to state C01/C02. *)
+Record vq := mkVq { v_hid : nat; v_num : nat; v_simNode : nat; v_simNum : nat; v_qid : nat }.
 Record sq := mkSq { s_simNum : nat; s_reg : nat; s_pos : nat }.
-Record reg := mkReg { r_num : nat; r_max : nat; r_n : nat; r_tab : tab }.
+Record reg := mkReg { r_num : nat; r_max : nat; r_n : nat; r_tab : tab; r_ids : list nat }.
 Record node := mkNode { virt : list vq; sims : list sq; regs : list reg;
                         numRegs : nat; nextReg : nat; maxQ : nat; maxR : nat }.
 Record net := mkNet { nodes : list node; next_hid : nat }.
@@ -93,17 +96,24 @@ Definition gate1_of (g : g1) : option gate1 :=
              | NT | NRot => None end.
 Definition gate2_of (g : g2) : gate2 := match g with NCnot => GCNOT | NCphase => GCZ end.
 
-Definition reg_with_tab (r : reg) (n : nat) (t : tab) : reg := mkReg (r_num r) (r_max r) n t.
+Definition reg_with_tab (r : reg) (n : nat) (t : tab) : reg := mkReg (r_num r) (r_max r) n t (r_ids r).
+Definition reg_with_ids (r : reg) (ids : list nat) : reg := mkReg (r_num r) (r_max r) (r_n r) (r_tab r) ids.
+Fixpoint remove_nth {A} (i : nat) (l : list A) : list A :=
+  match l, i with
+  | [], _ => []
+  | _ :: t, 0 => t
+  | a :: t, S j => a :: remove_nth j t
+  end.
 
 (* remote_new_register: numRegs limit, monotone number, maxQubits default 10 *)
 Definition add_register (nd : node) : option (node * reg) :=
   if Nat.leb (maxR nd) (numRegs nd) then None
-  else let r := mkReg (nextReg nd) 10 0 [] in
+  else let r := mkReg (nextReg nd) 10 0 [] [] in
        Some (mkNode (virt nd) (sims nd) (regs nd ++ [r]) (S (numRegs nd)) (S (nextReg nd)) (maxQ nd) (maxR nd), r).
 
 (* remote_add_register(ignore_max_registers=True): the temporary register of a both-remote merge *)
 Definition add_register_force (nd : node) : node * reg :=
-  let r := mkReg (nextReg nd) 10 0 [] in
+  let r := mkReg (nextReg nd) 10 0 [] [] in
   (mkNode (virt nd) (sims nd) (regs nd ++ [r]) (S (numRegs nd)) (S (nextReg nd)) (maxQ nd) (maxR nd), r).
 
 (* ---- creation ----------------------------------------------------------------------------------- *)
@@ -114,11 +124,11 @@ Definition op_new (s : net) (i : nat) : net * out :=
        | None => (s, Err KQuantum)
        | Some (nd1, r) =>
            let simNum := fresh_id (map s_simNum (sims nd)) in
-           let r1 := reg_with_tab r 1 (add_qubit 0 []) in
+           let r1 := reg_with_ids (reg_with_tab r 1 (add_qubit 0 [])) [next_hid s] in
            let nd2 := with_regs nd1 (set_reg (regs nd1) r1) (numRegs nd1) in
            let nd3 := with_sims nd2 (sims nd2 ++ [mkSq simNum (r_num r) 0]) in
            let newNum := fresh_id (map v_num (virt nd3)) in
-           let nd4 := with_virt nd3 (virt nd3 ++ [mkVq (next_hid s) newNum i simNum]) in
+           let nd4 := with_virt nd3 (virt nd3 ++ [mkVq (next_hid s) newNum i simNum (next_hid s)]) in
            (mkNet (upd (nodes s) i nd4) (S (next_hid s)), Ok newNum)
        end.
 
@@ -156,7 +166,7 @@ Definition op_gate1 (s : net) (h : nat) (g : g1) : net * out :=
 Definition remove_sim (s : net) (ni : nat) (x : sq) (r : reg) (coin : bool) : net :=
   let sn := nth_node s ni in
   let '(_, n', t') := measure (r_n r) (s_pos x) false coin (r_tab r) in
-  let r' := reg_with_tab r n' t' in
+  let r' := reg_with_ids (reg_with_tab r n' t') (remove_nth (s_pos x) (r_ids r)) in
   let sn1 :=
     if Nat.eqb n' 0 then
       mkNode (virt sn) (sims sn) (del_reg (regs sn) (r_num r)) (numRegs sn - 1) (nextReg sn) (maxQ sn) (maxR sn)
@@ -197,7 +207,7 @@ Definition op_send (s : net) (h : nat) (ti : nat) : net * out :=
         if Nat.leb (maxQ tn) (length (virt tn)) then (s, Err KNoQubit)
         else
           let newNum := fresh_id (map v_num (virt tn)) in
-          let tn1 := with_virt tn (virt tn ++ [mkVq (next_hid s) newNum (v_simNode q) (v_simNum q)]) in
+          let tn1 := with_virt tn (virt tn ++ [mkVq (next_hid s) newNum (v_simNode q) (v_simNum q) (v_qid q)]) in
           let s1 := mkNet (upd (nodes s) ti tn1) (S (next_hid s)) in
           let vn := nth_node s1 vi in
           (set_node s1 vi (with_virt vn (remove_vq h (virt vn))), Ok newNum)
@@ -210,7 +220,7 @@ Definition local_merge (s : net) (ni k1 k2 : nat) : net :=
   match find_reg k1 (regs nd), find_reg k2 (regs nd) with
   | Some r1, Some r2 =>
       let off := r_n r1 in
-      let r1' := mkReg (r_num r1) (r_max r1 + r_n r2) (r_n r1 + r_n r2) (tensor (r_n r1) (r_tab r1) (r_n r2) (r_tab r2)) in
+      let r1' := mkReg (r_num r1) (r_max r1 + r_n r2) (r_n r1 + r_n r2) (tensor (r_n r1) (r_tab r1) (r_n r2) (r_tab r2)) (r_ids r1 ++ r_ids r2) in
       let sims' := map (fun y => if Nat.eqb (s_reg y) k2 then mkSq (s_simNum y) k1 (s_pos y + off) else y) (sims nd) in
       set_node s ni (mkNode (virt nd) sims' (del_reg (set_reg (regs nd) r1') k2) (numRegs nd - 1) (nextReg nd) (maxQ nd) (maxR nd))
   | _, _ => s
@@ -247,7 +257,7 @@ Definition merge_from (s : net) (li oi : nat) (simNum : nat) (lk : nat) : net * 
       | Some lr =>
         let off := r_n lr in
         let lr' := mkReg (r_num lr) (r_max lr + r_n orr) (r_n lr + r_n orr)
-                         (tensor (r_n lr) (r_tab lr) (r_n orr) (r_tab orr)) in
+                         (tensor (r_n lr) (r_tab lr) (r_n orr) (r_tab orr)) (r_ids lr ++ r_ids orr) in
         let '(sims', ids) := alloc_sims (r_n orr) lk off (sims ln) in
         let ln1 := mkNode (virt ln) sims' (set_reg (regs ln) lr') (numRegs ln) (nextReg ln) (maxQ ln) (maxR ln) in
         let s2 := set_node s1 li ln1 in
@@ -255,7 +265,7 @@ Definition merge_from (s : net) (li oi : nat) (simNum : nat) (lk : nat) : net * 
         let repoint (q : vq) : vq :=
           if Nat.eqb (v_simNode q) oi then
             match find_sq (v_simNum q) moved with
-            | Some y => mkVq (v_hid q) (v_num q) li (nth (s_pos y) ids 0)
+            | Some y => mkVq (v_hid q) (v_num q) li (nth (s_pos y) ids 0) (v_qid q)
             | None => q
             end
           else q in
